@@ -6,10 +6,10 @@ LEAN_TARGETS = ["MagpyVerif.Props.C06"]
 PROPS = ["MagpyVerif.Props.C06"]
 NOT_SHOWN = {
  "03": ["full getBH pipeline covariance with Sensor observers (proved for position observers; sensors are C04)"],
- "04": ["end-to-end composition of poso/level1/sensorFrame/split into one formula (each stage is proved separately)"],
+ "04": ["pixel_agg reductions other than sum/min/max (mean, median, std, ...) are not modelled; the theorem holds for any reduction function of the pixel list, the stream exercises sum/min/max"],
  "05": ["linearity of each class's kernel in its excitation (kernel-level, see C01/C02); proved here: the marshalling preserves it for any F"],
  "06": ["batch-level control flow inside kernels (rowwise_c: trimesh grouping, segment early return, cel n<10) — kernel model pending",
-        "squeeze/shape bookkeeping is modelled and tied by correspondence, not separately proved"],
+        "np.squeeze / np.expand_dims / reshape semantics are assumed as modelled (shape list + unchanged row-major data), exercised by the stream"],
 }["06"]
 
 
